@@ -433,19 +433,20 @@ class Interp:
         return Term('unary' + type(n.op).__name__, v)
 
     def ev_BoolOp(self, n, fr):
+        last = len(n.values) - 1
         if isinstance(n.op, ast.And):
-            v = K(True)
-            for e in n.values:
+            for i, e in enumerate(n.values):
                 v = self.ev(e, fr)
+                if i == last:
+                    return v
                 if not self.truth(v, n):
-                    return v if isinstance(v, K) else K(False)
-            return v if not isinstance(v, Cond) else K(True)
-        v = K(False)
-        for e in n.values:
+                    return v if not isinstance(v, Cond) else K(False)
+        for i, e in enumerate(n.values):
             v = self.ev(e, fr)
+            if i == last:
+                return v
             if self.truth(v, n):
                 return v if not isinstance(v, Cond) else K(True)
-        return v if not isinstance(v, Cond) else K(False)
 
     def ev_Compare(self, n, fr):
         left = self.ev(n.left, fr)
@@ -796,8 +797,14 @@ class Interp:
                 r = self.models.native_attr(self, v.inst.native, a, v.inst)
                 if r is not None:
                     return r
-            if a in ('__init__', '__new__'):
-                return Native(lambda it, args, kw, node: v.inst if a == '__new__' else K(None), 'object.' + a)
+            if a == '__new__':
+                rc = v.inst.cls if isinstance(v.inst, Inst) else v.inst
+                nat = self.models.native_base(self, rc) if isinstance(rc, ClassRef) else None
+                if nat is not None:
+                    return self.models.native_attr(self, nat, '__new__', None)
+                return Native(lambda it, args, kw, node: it.new_inst(args[0]), 'object.__new__')
+            if a == '__init__':
+                return Native(lambda it, args, kw, node: K(None), 'object.__init__')
             raise Fail(f'super().{a} unresolved')
         if isinstance(v, ClassRef):
             r = self.class_attr(v, a, None)
@@ -825,6 +832,8 @@ class Interp:
                 fn = c.methods[a]
                 f = FuncRef(fn, c.module, c)
                 decs = f.decorators()
+                if a == '__new__':
+                    return f
                 if inst is not None and 'property' in decs:
                     return self.invoke(f, [inst], {})
                 if inst is not None and 'setter' in decs:
@@ -998,7 +1007,13 @@ class Interp:
     def construct(self, cls, args, kw, n=None):
         if self.is_exception_class(cls):
             return ExcV(cls.name, tuple(args))
-        inst = self.new_inst(cls)
+        cn, new = self.prog.find_method(cls, '__new__')
+        if new is not None:
+            inst = self.invoke(FuncRef(new, cn.module, cn), [cls] + list(args), dict(kw))
+            if not (isinstance(inst, Inst) and inst.cls is not None and self.prog.is_subclass(inst.cls, cls.name)):
+                return inst
+        else:
+            inst = self.new_inst(cls)
         c, init = self.prog.find_method(cls, '__init__')
         if init is not None:
             self.invoke(FuncRef(init, c.module, c), [inst] + args, kw)
